@@ -37,12 +37,21 @@ PROBES = ['1e5', 'yes', '1.2.3', 'a: 1\nb: [x, 2.5, null]\n', '2001-12-14', '0x1
 DUMP_PROBES = [{'a': 1, 'b': [1.5, None, 'yes', '1e5']}, ['x', True], 'plain', 3.0]
 
 
+class _SharedBase:
+    def __init__(self, a: int) -> None:
+        self.a = a
+
+
+_SharedBase.__name__ = 'K0'
+_SharedBase.__qualname__ = 'K0'
+
+
 def make_classes(variant):
     """Fresh class objects; the variant decides the attributes, so same-named classes of different functions differ."""
     import enum
     import yatiml
     ns = {}
-    if variant % 3 == 0:
+    if variant % 4 == 0:
         class K0:
             def __init__(self, a: int, b: str = 'x') -> None:
                 self.a, self.b = a, b
@@ -52,7 +61,7 @@ def make_classes(variant):
                 super().__init__(a, b)
                 self.c = c
         docs = {'K0': ['a: 1\n', 'a: 2\nb: y\n', 'a: 1\nc: 2.5\n', 'a: nope\n', 'zz: 1\n']}
-    elif variant % 3 == 1:
+    elif variant % 4 == 1:
         class K0:           # same name, different shape
             def __init__(self, name: str) -> None:
                 self.name = name
@@ -61,6 +70,16 @@ def make_classes(variant):
             def __init__(self, k: K0, n: int = 3) -> None:
                 self.k, self.n = k, n
         docs = {'K0': ['name: n\n', 'a: 1\n', 'name: 5\n'], 'K1': ['k: {name: z}\n', 'k: {name: z}\nn: 4\n', 'k: 1\n']}
+    elif variant % 4 == 3:
+        # a base class SHARED by all functions of this kind (one module-level class object); each function brings its own,
+        # same-named subclass of it
+        K0 = _SharedBase
+
+        class K1(K0):
+            def __init__(self, a: int, c: float) -> None:
+                super().__init__(a)
+                self.c = c
+        docs = {'K0': ['a: 1\n', 'a: 1\nc: 2.5\n', 'a: nope\n'], 'K1': ['a: 1\nc: 2.5\n', 'a: 1\n']}
     else:
         class K0:
             _yatiml_defaults = {'b': 'user-default'}       # user-declared defaults: must not be written to
@@ -196,19 +215,25 @@ def dump_value(ns, variant, j):
         shared = [1, 'two']
         return {'a': shared, 'b': [shared]}
     try:
-        if variant % 3 == 0:
+        if variant % 4 == 0:
             return [ns['K0'](1), ns['K1'](2, 2.5, 'z'), {'k': ns['K0'](3, 'y')}, object()][j]
-        if variant % 3 == 1:
+        if variant % 4 == 1:
             return [ns['K0']('n'), ns['K1'](ns['K0']('m')), [ns['K1'](ns['K0']('q'), 9)], object()][j]
+        if variant % 4 == 3:
+            return [ns['K0'](1), ns['K1'](2, 2.5), [ns['K1'](3, 0.5), ns['K0'](4)], object()][j]
         return [ns['K0'](1), ns['K0'](1, 'user-default', 7), ns['K1'].red, object()][j]
     except Exception:      # noqa
         return None
 
 
-def owner_of(entry_obj, base_ids, owners):
+def owner_of(entry_obj, base_ids, owners, mine=(), me=None):
     if id(entry_obj) in base_ids:
         return 0
     cls = getattr(entry_obj, 'class_', None)
+    # a class object may be shared by several functions (a common base): in the table of a function that registered it, the
+    # entry counts as that function's own
+    if cls is not None and id(cls) in mine:
+        return me
     if cls is not None and id(cls) in owners:
         return owners[id(cls)]
     return owners.get(id(entry_obj), 999)
@@ -242,7 +267,7 @@ def observe(h, base_ctor0, base_repr0):
     for i, (f, ns, *_rest) in enumerate(h.loaders):
         items = []
         for k, v in f.loader.yaml_constructors.items():
-            o = owner_of(v, base_ids_c, owners_l)
+            o = owner_of(v, base_ids_c, owners_l, {id(c) for c in ns.values()}, i + 1)
             if o == 999 and k == '!Path':
                 o = i + 1               # each function gets its own PathConstructor
             items.append((key_name(k), o))
@@ -256,7 +281,7 @@ def observe(h, base_ctor0, base_repr0):
                     dcls = attr
         items = []
         for k, v in dcls.yaml_representers.items():
-            o = owner_of(v, base_ids_r, owners_d)
+            o = owner_of(v, base_ids_r, owners_d, {id(c) for c in ns.values()}, i + 1)
             if o == 999 and key_name(k) in ('PosixPath', 'WindowsPath'):
                 o = i + 1
             items.append((key_name(k), o))
@@ -272,9 +297,9 @@ def run_history(rnd, length):
     for _ in range(length):
         r = rnd.random()
         if r < 0.25 or not h.loaders and r < 0.5:
-            h.new_load(rnd.randrange(6), rnd.choice(['K0', 'K1']))
+            h.new_load(rnd.randrange(8), rnd.choice(['K0', 'K1']))
         elif r < 0.45 or not h.dumpers:
-            h.new_dump(rnd.randrange(6), rnd.choice(['dumps', 'dumps_json', 'dump', 'dump_json']))
+            h.new_dump(rnd.randrange(8), rnd.choice(['dumps', 'dumps_json', 'dump', 'dump_json']))
         elif r < 0.75 and h.loaders:
             h.call_load(rnd.randrange(len(h.loaders)), rnd.randrange(8))
         else:
@@ -284,19 +309,24 @@ def run_history(rnd, length):
 
 def reference_outcomes():
     """Every call in a history of its own: a fresh function, called once."""
+    import gc
     ref = {}
-    for variant in range(6):
-        ns, docs = make_classes(variant)
+    gc.collect()
+    h = None
+    for variant in range(8):
+        docs = make_classes(variant)[1]
         for top in docs:
             for d in docs[top]:
+                h = None
+                gc.collect()
                 h = History()
                 h.new_load(variant, top)
-                ref[('load', variant % 3, top, d)] = h.call_load(0, docs[top].index(d))
+                ref[('load', variant % 4, top, d)] = h.call_load(0, docs[top].index(d))
         for kind in ('dumps', 'dumps_json', 'dump', 'dump_json'):
             for j in range(5):
                 h = History()
                 h.new_dump(variant, kind)
-                ref[('dump', variant % 3, kind, j)] = h.call_dump(0, j)
+                ref[('dump', variant % 4, kind, j)] = h.call_dump(0, j)
     return ref
 
 
@@ -320,27 +350,27 @@ def tie(ctx, model_ok=True):
         # same call, same result, whatever came before
         for kind, variant, a, b, o in h.calls:
             ncalls += 1
-            want = ref[(kind, variant % 3, a, b)]
+            want = ref[(kind, variant % 4, a, b)]
             if o != want:
                 res['failing'].append({'signature': f'history-dependent:{kind}', 'what':
-                                       f'{kind} call ({a}, {b!r}) of class variant {variant % 3} gave {o!r} in history {h.ops} but {want!r} in a history of its own',
+                                       f'{kind} call ({a}, {b!r}) of class variant {variant % 4} gave {o!r} in history {h.ops} but {want!r} in a history of its own',
                                        'case': {'ops': h.ops, 'seed': ctx['seed'], 'history': hi}})
                 break
         # classes of one function are unknown to the others
         for i, (f, ns, docs, variant, top) in enumerate(h.loaders):
             for j, (g, ns2, docs2, variant2, top2) in enumerate(h.loaders):
-                if i != j and variant % 3 != variant2 % 3:
+                if i != j and variant % 4 != variant2 % 4:
                     d = docs2[top2][0]
                     o1 = outcome(f, d)
-                    o2 = ref.get(('load', variant % 3, top, d))
+                    o2 = ref.get(('load', variant % 4, top, d))
                     if o2 is None:
                         h2 = History()
                         h2.new_load(variant, top)
                         o2 = outcome(h2.loaders[0][0], d)
-                        ref[('load', variant % 3, top, d)] = o2
+                        ref[('load', variant % 4, top, d)] = o2
                     if o1 != o2:
                         res['failing'].append({'signature': 'not-isolated:load', 'what':
-                                               f'function {i} (variant {variant % 3}) loads {d!r} as {o1!r} in the presence of function {j} '
+                                               f'function {i} (variant {variant % 4}) loads {d!r} as {o1!r} in the presence of function {j} '
                                                f'but as {o2!r} alone', 'case': {'ops': h.ops, 'seed': ctx['seed'], 'history': hi}})
         terms.append('{| wc_base_ctor := ' + bc0 + '; wc_base_repr := ' + br0 + '; wc_ops := [' + '; '.join(h.ops)
                      + ']; wc_expect := ' + observe(h, base_ctor0, base_repr0) + ' |}')
@@ -360,7 +390,7 @@ def tie(ctx, model_ok=True):
         res['evaluations'] += 1
         if class_snapshot(ns.values()) != snap:
             res['failing'].append({'signature': 'user-class-modified', 'what':
-                                   f'creating and using load/dumps functions changed the user classes of variant {variant % 3}: '
+                                   f'creating and using load/dumps functions changed the user classes of variant {variant % 4}: '
                                    f'{snap[:300]} -> {class_snapshot(ns.values())[:300]}', 'case': {'variant': variant}})
     # concurrent calls from threads
     thr_fail = threaded(rnd, ref, 6 if ctx['tier'] == 'quick' else 16, 60 if ctx['tier'] == 'quick' else 400)
@@ -412,7 +442,7 @@ def threaded(rnd, ref, nthreads, ncalls):
         t.join()
     for h in hs:
         for kind, variant, a, b, o in h.calls:
-            want = ref.get((kind, variant % 3, a, b))
+            want = ref.get((kind, variant % 4, a, b))
             if want is not None and o != want:
                 fails.append({'signature': f'thread-dependent:{kind}', 'what': f'{kind} call ({a}, {b!r}) gave {o!r} when run concurrently '
                               f'with {nthreads - 1} other threads but {want!r} alone', 'case': {'threads': nthreads}})
